@@ -97,15 +97,17 @@ def quoteName (cfg : SafeCfg) (name : Str) : Except PyExc Str :=
   else if name.any isSurrogate then .error .UnicodeEncodeError
   else .ok (name.flatMap (encChar cfg))
 
-/-- `if os_type == 'windows': if new_filename[-1] in ' .': '{0}{1:02X}'.format(.., str)`:
-the format call always raises `ValueError` (format code `X` on a `str`);
-`[-1]` of an empty name raises `IndexError`. -/
-def winTrailing (cfg : SafeCfg) (s : Str) : Except PyExc Str :=
+/-- `if os_type == 'windows': if new_filename and new_filename[-1] in ' .':
+'{0}%{1:02X}'.format(new_filename[:-1], ord(new_filename[-1]))` — the repaired code
+(KNOWN_FINDINGS.txt, `fixed:` C15): a trailing blank / dot becomes `%20` / `%2E`; the
+empty name is left alone.  (Before the repair the format call raised `ValueError`
+for every such name and `[-1]` raised `IndexError` for the empty one.) -/
+def winTrailing (cfg : SafeCfg) (s : Str) : Str :=
   if cfg.os == .windows then
     match s.getLast? with
-    | none => .error .IndexError
-    | some c => if c == 32 || c == 46 then .error .ValueError else .ok s
-  else .ok s
+    | none => s
+    | some c => if c == 32 || c == 46 then s.dropLast ++ pct c else s
+  else s
 
 /-- `if max_length and len(new) > max_length: new[:max(0, max_length - 8)] + sha1hex[:8]` -/
 def truncate (cfg : SafeCfg) (sha : Str → Str) (s : Str) : Str :=
@@ -126,16 +128,13 @@ def foldStr (tbl : Nat → Str) (m : CaseMode) (s : Str) : Str := s.flatMap (fol
 def safeFilename (cfg : SafeCfg) (tbl : Nat → Str) (sha : Str → Str) (name : Str) : Except PyExc Str :=
   match quoteName cfg name with
   | .error e => .error e
-  | .ok q =>
-    match winTrailing cfg q with
-    | .error e => .error e
-    | .ok w => .ok (foldStr tbl cfg.case (truncate cfg sha w))
+  | .ok q => .ok (foldStr tbl cfg.case (truncate cfg sha (winTrailing cfg q)))
 
 /-- the name whose SHA-1 `safe_filename` would take (used by the driver to key the logged digests) -/
 def preTrunc (cfg : SafeCfg) (name : Str) : Option Str :=
   match quoteName cfg name with
   | .error _ => none
-  | .ok q => match winTrailing cfg q with | .error _ => none | .ok w => some w
+  | .ok q => some (winTrailing cfg q)
 
 /-! ### urllib.parse.urlsplit, `.hostname`, `.port` -/
 
